@@ -102,6 +102,9 @@ pub fn run() -> Report {
             }
         }
         cases.push(Case { coin: cn, versions: vec![1, 0x7fff_ffff, 1, thr], section: default_sec.clone(), label: "extremes".into() });
+        // the upper half of the 4-byte field: "at or above the activation version" as the numbers that are stored
+        cases.push(Case { coin: cn, versions: vec![1, 0x8000_0000, thr, 0xffff_ffff], section: default_sec.clone(), label: "upper half".into() });
+        cases.push(Case { coin: cn, versions: vec![0x8000_0101 | thr, 0x8001_0101, 0x8062_0102, 0xc062_0104], section: default_sec.clone(), label: "upper half, chain-id shapes".into() });
         // the threshold is a comparison of numbers, not a bit pattern: the one-bit neighbourhood of the activation version (each
         // of its 31 low bits flipped: above it with a section, below it without), every power of two and its successor, and
         // versions that real chains carry (BIP9 top bits with the chain id, version bits with the AuxPoW flag bit clear)
